@@ -59,14 +59,14 @@ def _configs(tier):
     return cfgs
 
 
-def _threads(tier, variant):
+def _threads(tier, variant, reprod_array):
     if variant == "plain":
         return [1]
     if tier != "quick":
         return [1, 2, 3]
     # one thread is the serial loop again: quick keeps it for the
     # reproducible-reduction code only, whose array extent depends on it
-    return [1, 2] if variant == "omp2r" else [2]
+    return [1, 2] if variant == "omp2r" and reprod_array else [2]
 
 
 def build_case(cap, margs, info_by_style, g, dm, ann, variant, style, lay, tier):
@@ -75,7 +75,7 @@ def build_case(cap, margs, info_by_style, g, dm, ann, variant, style, lay, tier)
     text, iname, kern = G.make_psy(info, dm, ann, variant)
     it = G.itemise(text, iname)
     undf = G.LAYOUT_UNDF[lay]
-    threads = _threads(tier, variant)
+    threads = _threads(tier, variant, bool(it.alloc))
     if it.alloc and len(threads) > 1:
         # the thread count is the second extent of the reproducible-sum array:
         # one case per thread count
@@ -224,9 +224,12 @@ def run(tier):
     out = core.Outcome("C20", tier, "model_checking", matchers=MATCHERS)
     guide = D.parse_guide()
     table = G.builtin_table()
+    only = os.environ.get("PV_C20_ONLY")       # development aid: a,b,c = these built-ins only
+    if only:
+        table = [t for t in table if t[0].lower() in only.lower().split(",")]
     results = core.pool_map(_build, [(cap, margs, tier) for cap, margs in table],
                             procs=_W, chunksize=1)
-    names = {cap.lower() for cap, _ in table}
+    names = {cap.lower() for cap, _ in G.builtin_table()}
     undocumented = sorted(r["builtin"] for r in results if r["nodoc"])
     doc_only = sorted(set(guide) - names)
     built, unsupported = [], []
